@@ -2,8 +2,8 @@
 
 1. TLC explores spec/TrustSigner.tla: 9 TRC time lines (S1 -> S2 with rotated root; in grace, grace
    with expired predecessor, grace shorter / longer than everything else, grace over, no grace, latest
-   not yet valid / expired, base TRC only) x key rings x up to 2 (quick) / 3 (thorough) chains out of 24
-   (2 keys x issued under old / new / unknown root x 4 expiry times incl. expired and beyond the TRC).
+   not yet valid / expired, base TRC only) x key rings x up to 2 (quick) / 3 (thorough) chains out of 18
+   (2 keys x issued under old / new / unknown root x 3 expiry times: before / beyond the TRC's, already passed).
    In-model: the procedure shaped like SignerGen.Generate/bestForKey/bestChain produces only signers
    allowed by SignerRule (written from the statement).  Every case is a scenario.
 2. harness/cmd/trust -mode signer builds the TRC history, chains and keys, stores them in a real
